@@ -194,6 +194,11 @@ func (h *hist) principalByName(n string) *principal {
 
 // genCreate: path "" = choose.
 func (h *hist) genCreate(path string, exclude map[string]bool) request {
+	return h.genCreateClass(path, exclude, "")
+}
+
+// genCreateClass: class "" = choose.
+func (h *hist) genCreateClass(path string, exclude map[string]bool, class string) request {
 	r := h.r
 	if path == "" {
 		path = wpick(r, []string{"tx", "handler", "wasm"}, []int{25, 35, 40})
@@ -205,11 +210,16 @@ func (h *hist) genCreate(path string, exclude map[string]bool) request {
 	if req.Class == "dup" && len(h.ids) == 0 {
 		req.Class = "new"
 	}
+	if class != "" {
+		req.Class = class
+	}
 	switch req.Class {
 	case "dup":
 		req.JobID = pick(r, h.ids)
 	case "badid":
 		req.JobID = h.badID()
+	case "new":
+		req.JobID = h.newID()
 	default:
 		req.JobID = h.freshID()
 	}
@@ -274,6 +284,19 @@ func (h *hist) genExec(path string, exclude map[string]bool) request {
 	} else {
 		req.JobID = h.freshID() // never created
 		req.Class = "unknown-job"
+		if len(h.ghosts) > 0 && r.Intn(2) == 0 {
+			// created only inside a transaction that was rolled back / simulated: as good as never
+			req.JobID = pick(r, h.ghosts)
+		}
+	}
+	if req.Class == "" && r.Intn(2) == 0 {
+		// a job whose id had been created before on a discarded store branch: run it soon
+		for _, id := range h.ids {
+			if j := h.jobs[id]; j.Reborn && j.Execs == 0 && j.Fails < 2 {
+				req.JobID = id
+				break
+			}
+		}
 	}
 	wasm := path == "wasm" || path == "wasm-legacy"
 	if wasm && req.Class == "" {
